@@ -466,6 +466,9 @@ static void run_wiring(Result &R, const Args &A) {
     R.hit_deadline("wiring: not all layouts / level assignments done");
   R.evaluations += total.ev;
   R.nontrivial += total.ev;
+  R.sample(fmt("{\"part\": \"wiring\", \"layouts\": \"(1..3)^3\", \"periodicities\": 8, \"cells_per_subgrid_axis\": \"1..%d\", "
+               "\"copy_levels\": \"{0,1,2}^NS for NS<=4 and 2x2x2 (%s)\"}",
+               A.thorough() ? 2 : 1, A.thorough() ? "all 6561" : "caller-restricted"));
   R.set("wiring_layout_periodicity_cases", (double)total.layouts);
   R.set("copy_level_assignments", (double)total.level_assignments);
   R.set("copies_created", (double)total.copies_made);
